@@ -327,20 +327,30 @@ pub fn run(cfg: &Config, schema: &Schema, hist: &[Op], term: Terminal) -> Result
         }
     }
     // canonical state key (hook H2 + sink + model)
-    let ws = w.verif_state();
     let mut key = vec![];
-    key.extend_from_slice(&(ws.buffer.len() as u32).to_le_bytes());
-    key.extend_from_slice(&ws.buffer);
-    key.extend_from_slice(&(ws.num_values as u32).to_le_bytes());
-    key.push(ws.has_header as u8);
-    for (k, v) in &ws.user_metadata {
-        key.extend_from_slice(k.as_bytes());
-        key.push(0);
-        key.extend_from_slice(v);
-        key.push(0);
+    #[cfg(feature = "hooks")]
+    {
+        let ws = w.verif_state();
+        key.extend_from_slice(&(ws.buffer.len() as u32).to_le_bytes());
+        key.extend_from_slice(&ws.buffer);
+        key.extend_from_slice(&(ws.num_values as u32).to_le_bytes());
+        key.push(ws.has_header as u8);
+        for (k, v) in &ws.user_metadata {
+            key.extend_from_slice(k.as_bytes());
+            key.push(0);
+            key.extend_from_slice(v);
+            key.push(0);
+        }
+        key.push(0xfe);
+        key.extend_from_slice(&canon_sink(&sink.0.borrow(), &ws.marker));
     }
-    key.push(0xfe);
-    key.extend_from_slice(&canon_sink(&sink.0.borrow(), &ws.marker));
+    // without the hook the writer's pending state cannot be seen: no two histories are merged
+    #[cfg(not(feature = "hooks"))]
+    {
+        key.extend_from_slice(format!("{hist:?}").as_bytes());
+        key.push(0xfe);
+        let _ = canon_sink(&sink.0.borrow(), &MARKER);
+    }
     key.push(0xfd);
     key.extend_from_slice(format!("{:?}", model).as_bytes());
     // terminal
@@ -508,6 +518,7 @@ pub fn run_check(tier: Tier, replay: Option<&J>) -> i32 {
             (Tier::Thorough, true) => 3,
         }
     };
+    // (built without hook H2 every history is its own state: the same histories are executed, none merged)
     let st = cfgs.par_iter().enumerate().map(|(i, c)| explore(c, depth_for(c), i)).reduce(Stats::default, Stats::merge);
     let rep = Report {
         id: "C03".into(),
